@@ -331,6 +331,39 @@ def fork_case(draw, max_nodes=8, families=("simple", "distance", "simple_n")):
     return {"graph": g, "trace": t, "config": c, "gen": "fork"}
 
 
+@st.composite
+def load_plan(draw, graph):
+    """A call-by-call way of loading `graph` into a SqliteMap (see base.mk_sqlite): per-call no_index / no_commit flags,
+    repeated add_node of a known label with ignore_doubles (other coordinates), repeated add_edge of a known edge (also
+    first unindexed, later indexed), re-index calls in between."""
+    nodes = [n[0] for n in graph]
+    locs = [n[1] for n in graph]
+    edges = []
+    for lab, _loc, nbrs in graph:
+        for n in nbrs:
+            if n != lab and [lab, n] not in edges:
+                edges.append([lab, n])
+    plan = []
+    for lab in shuffled(draw, nodes):
+        plan.append(["node", lab, chance(draw, 3), chance(draw, 3)])
+        if chance(draw, 2):
+            other = pick(draw, locs)
+            plan.append(["node_again", pick(draw, [p[1] for p in plan if p[0] == "node"]),
+                         [other[0] + pick(draw, [0.0, 0.5, 1.0, -2.0]), other[1] + pick(draw, [0.0, 0.25, 3.0])]])
+        if chance(draw, 1):
+            plan.append(["reindex_nodes"])
+    added = []
+    for e in shuffled(draw, edges):
+        plan.append(["edge", e[0], e[1], chance(draw, 4), chance(draw, 3)])
+        added.append(e)
+        if chance(draw, 3):
+            again = pick(draw, added)
+            plan.append(["edge", again[0], again[1], chance(draw, 2), chance(draw, 3)])
+        if chance(draw, 1):
+            plan.append([pick(draw, ["reindex_edges", "commit", "reindex_nodes"])])
+    return plan
+
+
 def sizes(tier):
     return {"max_nodes": 8, "max_len": 7} if tier == "quick" else {"max_nodes": 12, "max_len": 12}
 
